@@ -1,7 +1,9 @@
 package c13
 
 import (
+	"encoding/binary"
 	"fmt"
+	"os"
 
 	"github.com/zenon-network/go-zenon/chain/nom"
 	"github.com/zenon-network/go-zenon/common/types"
@@ -9,6 +11,7 @@ import (
 	"verifmc/internal/ops"
 	"verifmc/internal/vnode"
 	"verifmc/internal/xs"
+	"verifmc/props/c12"
 )
 
 var M = ops.Op{K: "M"}
@@ -221,9 +224,9 @@ func histories(tier string) [][]ops.Op {
 		{K: "Call", S: "delegate", A: 3, B: 2}, {K: "T", A: 1, B: 0, T: 1, V: 9}, {K: "M", V: 1},
 		{K: "R", A: 0}, {K: "R", A: 5}, {K: "T", A: 5, B: 2, V: 1}, M, M,
 	})
-	// H1: fuse for another user, refund, an empty momentum, transfer acknowledging an older momentum, burn
+	// H1: fuse for another user, refund, a transfer paid by proof of work alone, an empty momentum, transfer acknowledging an older momentum, burn
 	hs = append(hs, []ops.Op{
-		{K: "Call", S: "fuse", A: 0, B: 1, V: 50}, {K: "Call", S: "refund", A: 6}, M, M,
+		{K: "Call", S: "fuse", A: 0, B: 1, V: 50}, {K: "Call", S: "refund", A: 6}, {K: "Tpow", A: 7, B: 2, V: 1}, M, M,
 		{K: "Told13", A: 2, B: 3, V: 11}, {K: "Call", S: "burn", A: 4, T: 0, V: 100}, M,
 		{K: "R", A: 3}, {K: "R", A: 6}, M, M,
 	})
@@ -246,7 +249,37 @@ func histories(tier string) [][]ops.Op {
 	return hs
 }
 
+// powOnlyHint: least nonce valid for difficulty 21000*1500 on the block that follows user 7's genesis block (its PoW
+// pre-image, address and genesis block hash, is the same on every chain built from the mock genesis); verified before use, searched again if it ever stops being valid.
+const powOnlyHint = 13345815
+
 func init() {
+	// "Tpow": first block of user A after genesis, a transfer that uses no fused plasma and proves the whole base cost by work
+	ops.Extra["Tpow"] = func(n *vnode.Node, o ops.Op) string {
+		addr := ops.Users[o.A].Address
+		fr, err := n.Chain.GetFrontierAccountStore(addr).Frontier()
+		if err != nil || fr == nil || fr.Height != 1 {
+			panic(fmt.Sprintf("harness: Tpow is for an account that holds its genesis block only (%v %v)", fr, err))
+		}
+		d := uint64(21000 * 1500)
+		nonce, searched := c12.PowNonce(addr, fr.Hash, d, powOnlyHint)
+		if searched > 0 {
+			if p := os.Getenv("C13_NONCE_OUT"); p != "" {
+				os.WriteFile(p, []byte(fmt.Sprintf("powOnlyHint stale: searched %d hashes, least valid nonce %d\n", searched, nonce)), 0o644)
+			}
+		}
+		b := &nom.AccountBlock{BlockType: nom.BlockTypeUserSend, Address: addr, ToAddress: ops.Users[o.B].Address,
+			TokenStandard: ops.Tokens[o.T], Amount: ops.Big(o.V), Difficulty: d}
+		binary.LittleEndian.PutUint64(b.Nonce.Data[:], nonce)
+		blk, err := n.Submit(b)
+		if err != nil {
+			return "err:" + err.Error()
+		}
+		if blk.FusedPlasma != 0 || blk.Difficulty != d {
+			panic("harness: Tpow block is not paid by work alone")
+		}
+		return "ok"
+	}
 	// "Told13": transfer that acknowledges the momentum before the frontier
 	ops.Extra["Told13"] = func(n *vnode.Node, o ops.Op) string {
 		f := n.Frontier()
